@@ -194,7 +194,7 @@ class Exec(CallsMixin, Interp):
                 new = self.seq_concat(cur, K.coerce(rhs, cur.kind))
         else:
             new = self.binop(st.op, cur, rhs, st)
-        self.assign_to(st.target, new, st)
+        self.assign_to(st.target, new, st, inplace=isinstance(cur, V) and isinstance(cur.kind, (K.Seq, K.Set, K.Map)))
 
     def s_Delete(self, st):
         for t in st.targets:
@@ -203,7 +203,7 @@ class Exec(CallsMixin, Interp):
                 key = self.eval(t.slice)
                 if isinstance(base, V) and isinstance(base.kind, K.Map):
                     self.implicit_raise(K.map_has(base, key), 'KeyError', 'del of missing key', st)
-                    self.assign_to(t.value, K.map_del(base, key), st)
+                    self.assign_to(t.value, K.map_del(base, key), st, inplace=True)
                     continue
             raise Unsupported('del form (line %s)' % st.lineno)
 
@@ -229,7 +229,18 @@ class Exec(CallsMixin, Interp):
     def declared_local(self, name):
         return self.c.locals.get(name) if self.c is not None and self.depth == 0 else None
 
-    def assign_to(self, t, v, node=None):
+    def assign_to(self, t, v, node=None, inplace=False):
+        if isinstance(t, ast.Name) and inplace and not self.spec:
+            cur = self.env.get(t.id)
+            org = getattr(cur, 'origin', None) if isinstance(cur, V) else None
+            if org is not None and isinstance(v, V):
+                # in-place change through a local alias of an object's container: the object sees it too
+                okey, okind, oref = org
+                nv = K.coerce(v, okind)
+                self.heap_write(oref, okey, okind, V(nv.kind, nv.terms))
+                self.p.written.add(okey)
+                v = V(v.kind, v.terms)
+                v.origin = org
         if isinstance(t, ast.Name):
             dk = self.declared_local(t.id)
             if t.id in self.p.globals and (self.ghost_mode or t.id in getattr(self, 'global_names', ())):
@@ -316,7 +327,7 @@ class Exec(CallsMixin, Interp):
                 new = V(k, terms)
             else:
                 raise Unsupported('subscript store on %r' % (k,))
-            self.assign_to(t.value, new, node)
+            self.assign_to(t.value, new, node, inplace=True)
             return
         raise Unsupported('assignment target %s' % type(t).__name__)
 
